@@ -6,7 +6,9 @@
    datetime.fromisoformat), which stay universally quantified: the theorems hold whatever they accept.
    Encoders and decoders work on the TEXT (jprint/jparse are the models of json.dumps/json.loads).
    `_partial` = extra hypothesis excluding exactly a recorded finding; `_refuted` = the full statement fails,
-   with a witness that the harness replays on the implementation. *)
+   with a witness that the harness replays on the implementation.  The model follows /repo after the fix: commits
+   eb213ea (Location), a836d08 (from_json skips unknown keys first), 9b14727 (PathInfo/ERO nothing set => ''),
+   9153c3e (MaintenanceInfo.from_json ignores unknown entry fields). *)
 From Coq Require Import String List NArith ZArith Bool Permutation.
 From FIM Require Import Base.Str Base.Json Base.JsonRT Gen.CodecGen Model.CodecField Model.CodecMisc Model.CodecWf
      Model.CodecChk Proofs.CodecAssoc Proofs.CodecTables Proofs.CodecFieldRT Proofs.CodecMiscRT Proofs.CodecGateway.
@@ -77,31 +79,25 @@ Theorem C03_capacities_none_refuted :
 Proof. exact capacities_none_refuted. Qed.
 Print Assumptions C03_capacities_none_refuted.
 
-(* forward compatibility: unknown keys are ignored and no known key is dropped -- provided the unknown values
-   pass the class's per-value assertions (the code asserts before it looks the field up) *)
-Theorem C03_field_forward_compat_partial : forall V c t d, jparse t = Some (JObj d) -> absent_text t = false ->
-  ahas k_forgiving d || ahas k_self d = false ->
-  (forall k v, In (k, v) d -> ahas k (jc_fields c) = false -> check_value c v = None) ->
-  from_json V c (Some t) = some_res (of_dict V c (filter (known c) d)).
+(* forward compatibility, full strength: a text decodes exactly as its known part -- unknown keys, whatever their
+   values (and whether or not they are attribute names of the class), are ignored and no known key is dropped *)
+Theorem C03_field_forward_compat : forall V c t d, jparse t = Some (JObj d) -> absent_text t = false ->
+  from_json V c (Some t) = some_res (of_dict V c (filter (known_key c) d)).
 Proof. exact field_forward_compat. Qed.
-Print Assumptions C03_field_forward_compat_partial.
+Print Assumptions C03_field_forward_compat.
 
-Theorem C03_field_forward_compat_value_partial : forall V c o t d, In c gen_classes -> wf_obj V c o = true ->
-  jparse t = Some (JObj d) -> absent_text t = false -> ahas k_forgiving d || ahas k_self d = false ->
-  (forall k v, In (k, v) d -> ahas k (jc_fields c) = false -> check_value c v = None) ->
-  Permutation (filter (known c) d) (kept (jc_json_drop c) o) ->
+Theorem C03_field_forward_compat_same_known_part : forall V c t t' d d',
+  jparse t = Some (JObj d) -> jparse t' = Some (JObj d') -> absent_text t = false -> absent_text t' = false ->
+  filter (known_key c) d' = filter (known_key c) d -> from_json V c (Some t') = from_json V c (Some t).
+Proof. exact field_forward_compat_same. Qed.
+Print Assumptions C03_field_forward_compat_same_known_part.
+
+Theorem C03_field_forward_compat_value : forall V c o t d, In c gen_classes -> wf_obj V c o = true ->
+  jparse t = Some (JObj d) -> absent_text t = false ->
+  Permutation (filter (known_key c) d) (kept (jc_json_drop c) o) ->
   from_json V c (Some t) = Ok (Some o).
 Proof. exact (fun V c o t d H => field_forward_compat_value V c o t d (classes_ok V c H)). Qed.
-Print Assumptions C03_field_forward_compat_value_partial.
-
-(* FULL: the same without the hypothesis on the unknown values.  Refuted. *)
-Theorem C03_field_forward_compat_refuted :
-  exists t t0 o, from_json VA cls_Capacities (Some t0) = Ok (Some o)
-    /\ from_json VA cls_Capacities (Some t) = Err e_type
-    /\ (exists d0 k v, jparse t0 = Some (JObj d0) /\ jparse t = Some (JObj (d0 ++ [(k, v)]))
-                       /\ ahas k (jc_fields cls_Capacities) = false).
-Proof. exact forward_compat_refuted. Qed.
-Print Assumptions C03_field_forward_compat_refuted.
+Print Assumptions C03_field_forward_compat_value.
 
 (* copy-with-changes: same fields in the same order, the named ones replaced, every other one taken from the
    original; all new values were accepted by the class.  (That the ORIGINAL OBJECT is untouched is an aliasing
@@ -151,11 +147,15 @@ Proof. exact (fun V g => gw_roundtrip V g (classes_ok_labels V)). Qed.
 Print Assumptions C03_gateway_roundtrip.
 
 (* ---------------------------------------------------------------- PathInfo / ERO *)
-(* pinfo_wf: what the constructor and set() build AFTER set() was called *)
-Theorem C03_pathinfo_roundtrip_partial : forall ero p, pinfo_wf ero p = true ->
-  exists s, pi_to_json p = Ok s /\ pi_from_json ero (Some s) = Ok (Some p).
+(* pinfo_wf: everything the constructor and set() build, set() called or not; nothing set => '' => absent *)
+Theorem C03_pathinfo_roundtrip : forall ero p, pinfo_wf ero p = true ->
+  exists s, pi_to_json p = Ok s /\ pi_from_json ero (Some s) = Ok (if pinfo_nothing p then None else Some p).
 Proof. exact pi_roundtrip. Qed.
-Print Assumptions C03_pathinfo_roundtrip_partial.
+Print Assumptions C03_pathinfo_roundtrip.
+
+Theorem C03_pathinfo_nothing_set_is_empty_text : forall p, pinfo_nothing p = true -> pi_to_json p = Ok [].
+Proof. exact pi_unset_empty. Qed.
+Print Assumptions C03_pathinfo_nothing_set_is_empty_text.
 
 Theorem C03_pathinfo_canonical : forall ero p q s, pinfo_wf ero p = true -> pi_to_json p = Ok s ->
   pi_from_json ero (Some s) = Ok (Some q) -> pi_to_json q = Ok s.
@@ -167,15 +167,6 @@ Theorem C03_pathinfo_forward_compat : forall ero d d',
   pi_of_jv ero (JObj d') = pi_of_jv ero (JObj d).
 Proof. exact pi_forward_compat. Qed.
 Print Assumptions C03_pathinfo_forward_compat.
-
-(* FULL: every PathInfo / ERO built through the constructor can be encoded ('' when nothing is set). Refuted. *)
-Theorem C03_pathinfo_unset_refuted : exists p, pinfo_unset p = true /\ pi_strict p = None /\ pi_to_json p = Err e_attr.
-Proof. exact pi_unset_refuted. Qed.
-Print Assumptions C03_pathinfo_unset_refuted.
-
-Theorem C03_ero_unset_refuted : exists p, pinfo_unset p = true /\ pi_strict p = Some false /\ pi_to_json p = Err e_attr.
-Proof. exact ero_unset_refuted. Qed.
-Print Assumptions C03_ero_unset_refuted.
 
 (* ---------------------------------------------------------------- MaintenanceInfo *)
 (* "a finalized maintenance record cannot be altered": induction over all operation sequences *)
@@ -198,12 +189,11 @@ Theorem C03_maint_forward_compat_extra_node : forall VISO d n v l e, mentries_of
 Proof. exact maint_extra_node. Qed.
 Print Assumptions C03_maint_forward_compat_extra_node.
 
-(* FULL: unknown keys anywhere in the text are tolerated.  Refuted inside an entry. *)
-Theorem C03_maint_unknown_entry_field_refuted :
-  exists v extra, mentry_of_jv (fun _ => true) v = Ok {| me_state := Some MMaint; me_deadline := None; me_end := None |}
-    /\ mentry_of_jv (fun _ => true) (match v with JObj d => JObj (d ++ [extra]) | _ => v end) = Err e_type.
-Proof. exact maint_unknown_entry_field_refuted. Qed.
-Print Assumptions C03_maint_unknown_entry_field_refuted.
+Theorem C03_maint_forward_compat_entry_fields : forall VISO d d',
+  (forall k, In k [k_state; k_deadline; k_end] -> aget k d' = aget k d) ->
+  mentry_of_jv VISO (JObj d') = mentry_of_jv VISO (JObj d).
+Proof. exact maint_entry_forward_compat. Qed.
+Print Assumptions C03_maint_forward_compat_entry_fields.
 
 (* ---------------------------------------------------------------- legacy typed tuples *)
 Theorem C03_tuple_vocabulary_ok : tuple_vocab_ok = true.
@@ -247,6 +237,15 @@ Example C03_nonvacuous_labels_and_flags :
   wf_obj VA cls_Flags f = true /\ nothing_kept cls_Flags f = false /\
   wf_obj VA cls_Capacities (jc_fields cls_Capacities) = true /\ to_json cls_Capacities (jc_fields cls_Capacities) = [] /\
   from_json VA cls_Capacities (Some []) = Ok None.
+Proof. vm_compute. repeat split. Qed.
+
+Example C03_former_counterexamples_now_hold :
+  from_json VA cls_Capacities (Some (S"{""core"": 2, ""gpu_model"": ""A100"", ""to_json"": [1]}"))
+  = from_json VA cls_Capacities (Some (S"{""core"": 2}")) /\
+  pinfo_wf false {| pi_type := Some PTPath; pi_payload := PLRaw JNull; pi_strict := None |} = true /\
+  pi_to_json {| pi_type := Some PTPath; pi_payload := PLRaw JNull; pi_strict := Some false |} = Ok [] /\
+  mentry_of_jv VISOA (JObj [(k_state, JStr (S"Maint")); (k_deadline, JNull); (k_end, JNull); (S"reason", JStr (S"x"))])
+  = Ok {| me_state := Some MMaint; me_deadline := None; me_end := None |}.
 Proof. vm_compute. repeat split. Qed.
 
 Example C03_nonvacuous_others :
